@@ -164,6 +164,14 @@ def tie_stage(spec, data, tier, seed):
                 else:
                     disagreements.append(dict(process=name, source="direct-fuzz", **st4.first_bad[0]))
             stats.append(d3)
+    # recorded calls the encoders could not represent (never the case on a tree whose correspondence holds)
+    for key, cnt in (data.get("enc_errors") or {}).items():
+        pname = key.split(":")[0]
+        if pname == "ledger":
+            pname = key.split(":")[1]
+        if pname in set(spec.processes) | {getattr(encs.get(q), "NAME", q) for q in spec.processes}:
+            disagreements.append(dict(process=pname, source="whole-run", line="", expected="", got="",
+                                      encoder_error=key, count=int(cnt)))
     for tie in spec.ties:
         st_list, dis = tie(seed, tier)
         stats += st_list
